@@ -423,7 +423,7 @@ class Lab:
 
 
 def strip(rec):
-    return {k: v for k, v in rec.items() if k not in ("cdecl", "desc", "bytes_alloc")}
+    return {k: v for k, v in rec.items() if k not in ("cdecl", "desc", "bytes_alloc", "init_kind")}
 
 
 def describe(t, init, lab):
